@@ -473,10 +473,13 @@ func (g *Gen) binop(x *ssa.BinOp, guard string) {
 	default:
 		switch x.Op {
 		case token.ADD:
+			g.overflowCheck(x, App("+", a, b), guard)
 			g.defVal(x, App("+", a, b))
 		case token.SUB:
+			g.overflowCheck(x, App("-", a, b), guard)
 			g.defVal(x, App("-", a, b))
 		case token.MUL:
+			g.overflowCheck(x, App("*", a, b), guard)
 			g.defVal(x, App("*", a, b))
 		case token.QUO:
 			g.nopanic("div", guard, Not(Eq(b, "0")), x.Pos(), "division by non-zero")
@@ -862,4 +865,18 @@ func (w *World) pointerFieldsTo(t types.Type) []string {
 		}
 	}
 	return w.ptrFields[key]
+}
+
+// overflowCheck: in functions whose contract says `flag checked_arith`, every + - * on int / int64 must stay inside the
+// 64-bit range (elsewhere machine arithmetic is treated as mathematical, which the evidence lists as an assumption).
+func (g *Gen) overflowCheck(x *ssa.BinOp, r string, guard string) {
+	if g.contract.Flags["checked_arith"] == "" {
+		return
+	}
+	b, ok := x.Type().Underlying().(*types.Basic)
+	if !ok || (b.Kind() != types.Int && b.Kind() != types.Int64) {
+		return
+	}
+	name := fmt.Sprintf("%s#nopanic:overflow@%d", funcKey(g.fn), g.ordinal("nopanic:overflow"))
+	g.vc.Assert(name, "nopanic", guard, And(App("<=", "(- 9223372036854775808)", r), App("<=", r, "9223372036854775807")), g.pos(x.Pos()), "no 64-bit overflow in "+x.Op.String())
 }
